@@ -53,7 +53,7 @@ PROPS["C11"] = dict(
     text="Splits generated frames (real Frame and a raw-bytes Fragmentable) with the real make_fragments over an (size x MTU) grid, checks the fragment contract, feeds every permutation (<=6 fragments) and sampled permutations with duplicates and 2-4 interleaved frames to the real reassemble and requires each original exactly once and nothing else; adversarial header feeds are compared with a reference reassembler; timer expiry, id reuse after completion and id wrap-around are driven with real short timeouts and judged only when measured times are clearly on the intended side.",
     note="trusted: harness reference reassembler; real-time sleeps for expiry (skipped => inconclusive if the measured time is ambiguous)",
     design_ref="DESIGN.md 3 C11",
-    steps=[inproc("c11")],
+    steps=[inproc("c11"), miri("c11", thorough_only=True)],
     assumptions=COMMON_ASSUME,
 )
 PROPS["C12"] = dict(
@@ -63,7 +63,7 @@ PROPS["C12"] = dict(
     text="Drives the real HTTP head, SOCKS4/4a/5 request (incl. negotiation and user/pass), SOCKS reply and RPFM stream-frame decoders, and the whole CONNECT handshake followed by the real relay, over a scripted stream whose segment boundaries are chosen: all 2^(n-1) cut sets for messages up to 14 bytes, every single cut, sampled pairs, one-byte-at-a-time and random sets beyond, each with and without Pending between segments and with trailing payload; requires identical parsed message, identical left-over bytes and identical bytes written back. Every strict prefix must be rejected (or end cleanly for the frame reader).",
     note="trusted: message generators' rendering of the intended message; an HTTP head missing only the final LF is counted, not flagged (complete message, neither partial nor fabricated)",
     design_ref="DESIGN.md 3 C12",
-    steps=[inproc("c12")],
+    steps=[inproc("c12"), miri("c12", thorough_only=True)],
     assumptions=COMMON_ASSUME,
 )
 PROPS["C05"] = dict(
